@@ -28,7 +28,8 @@ ASSUMPTIONS = [
     'the ridge is existential over its admissible interval (1-D search); '
     'vacuous when the eigenvalue gap at the cut is below 1e-3 lambda_max']
 EXPECTED_PROBES = ['packed_root_checked', 'packed_padded', 'negative_rank',
-                   'packed_apply_checked', 'flagged_packed_applied']
+                   'packed_apply_checked', 'flagged_packed_applied',
+                   'packed_basis_checked']
 
 
 def generate(seed, idx, tier):
@@ -154,6 +155,29 @@ def run(plan):
         w_, U = np.linalg.eigh(0.5 * (S + S.T))
         lmax = max(float(w_[-1]), 0.0)
         k = abs(r)
+        # the retained directions form an orthonormal basis inside the real
+        # (unpadded) dimensions, whichever vectors of a degenerate eigenspace
+        # were picked. Padding directions have eigenvalue 0 and every real
+        # direction at least the ridge, so the two cannot mix as long as the
+        # ridge is far above the eigensolver's noise: float64 roots with
+        # eps >= ~1e-7 (the ridge is eps * lambda-hat, lambda-hat assumed within
+        # 1e4 of lambda_max); float32 roots are not judged.
+        x64_ = bool(w.plan.get('x64', True))
+        Dm = int(view.layout['max_size'])
+        if x64_ and rel and eps * 1e-4 * lmax >= 1000 * 8 * Dm * 2.0 ** -53 * lmax \
+            and lmax > 1e-30:
+          Vb = ref.unpack(X, r)[0]
+          gram = Vb.T @ Vb
+          dev = float(np.max(np.abs(gram - np.eye(gram.shape[0]))))
+          okb = dev <= 1e-3
+          ctx.probe('packed_basis_checked')
+          ctx.ev('packed_basis', 'ok' if okb else 'violation', dev / 1e-3)
+          if not okb:
+            ctx.violate('packed_basis', mk, 'retained_directions_not_orthonormal_'
+                        'in_real_dimensions', tick=t, leaf=i, stat=j, dev=dev,
+                        d=d, r=r, padded=bool(d < Dm))
+        else:
+          ctx.ev('packed_basis', 'vacuous')
         # eigenvalue gap at the cut
         srt = w_[::-1] if r > 0 else w_
         gap = abs(srt[k - 1] - srt[k])
